@@ -7,6 +7,7 @@
 namespace w {
 
 constexpr int NOBJ = 3;    // mock object slots
+constexpr int OBJ_FIXED = 1;  // this slot holds the non-movable mock class
 constexpr int NSLOT = 8;   // data-driven expectation slots (one site file each)
 constexpr int NLIT = 4;    // literal-site expectation slots (compile-time spellings)
 constexpr int NSC = 2;     // slots of scoped (non-NAMED) expectations alive inside a scoped block
